@@ -142,6 +142,8 @@ type clientState struct {
 	lastHdr uint64
 	maxSeen uint64
 	task    *rt.Task
+	finished bool
+	busyNode int
 }
 
 // InstallHooks points the repository's hook functions at the scheduler.
@@ -290,8 +292,8 @@ func (w *World) Start() {
 	sc := w.Sc
 	w.started = true
 	if len(sc.Prologue) > 0 {
-		cs := &clientState{id: -1, known: map[string][]uint64{}, tomb: map[string]uint64{}}
-		w.S.Go("prologue", 0, func() {
+		cs := &clientState{id: -1, known: map[string][]uint64{}, tomb: map[string]uint64{}, busyNode: -1}
+		w.S.Go("prologue", -1, func() {
 			for i, op := range sc.Prologue {
 				w.exec(cs, i, op)
 			}
@@ -302,18 +304,33 @@ func (w *World) Start() {
 	}
 	for ci := range sc.Clients {
 		ci := ci
-		cs := &clientState{id: ci, known: map[string][]uint64{}, tomb: map[string]uint64{}}
+		cs := &clientState{id: ci, known: map[string][]uint64{}, tomb: map[string]uint64{}, busyNode: -1}
 		w.clients = append(w.clients, cs)
-		cs.task = w.S.Go(fmt.Sprintf("client%d", ci), 0, func() {
+		cs.task = w.S.Go(fmt.Sprintf("client%d", ci), -1, func() {
 			w.S.YieldUntil("client.wait", func() bool { return w.proDone })
 			for i, op := range sc.Clients[ci].Ops {
 				w.exec(cs, i, op)
 				w.S.Yield("client.next")
 			}
+			cs.finished = true
 			w.done++
 		})
 	}
 	w.S.Settle()
+}
+
+// clientsSettled: every client has finished or is blocked inside a crashed node.
+func (w *World) clientsSettled() bool {
+	for _, cs := range w.clients {
+		if cs.finished {
+			continue
+		}
+		if cs.busyNode >= 0 && w.S.NodeDead(cs.busyNode) {
+			continue
+		}
+		return false
+	}
+	return true
 }
 
 // Run drives the scheduler until all clients are done, the step cap is hit, or
@@ -326,7 +343,7 @@ func (w *World) Run() {
 	w.lastProgress = w.S.SimTime()
 	steps := 0
 	doneSeen := -1
-	for steps < max && w.done < len(w.Sc.Clients) {
+	for steps < max && !w.clientsSettled() {
 		if w.done != doneSeen || w.progressed() {
 			doneSeen = w.done
 			w.lastProgress = w.S.SimTime()
@@ -342,7 +359,7 @@ func (w *World) Run() {
 		}
 		w.S.Advance(500 * time.Millisecond)
 	}
-	if w.done < len(w.Sc.Clients) {
+	if !w.clientsSettled() {
 		w.Stuck = true
 		w.StuckWhy = fmt.Sprintf("step cap %d reached", max)
 	}
@@ -371,7 +388,7 @@ func (w *World) Idle(d time.Duration, maxSteps int) int {
 // RunTask runs f as a fresh client task to completion (used for probes).
 func (w *World) RunTask(name string, node int, maxSteps int, f func()) bool {
 	finished := false
-	w.S.Go(name, node, func() { f(); finished = true })
+	w.S.Go(name, -1, func() { f(); finished = true })
 	w.S.Settle()
 	for i := 0; i < maxSteps && !finished; i++ {
 		if !w.S.Step() {
